@@ -770,6 +770,12 @@ func genOp(c *simkit.Choices, sh *shared, taskIdx int) *op {
 		if f == model.UBJSON && common.HasPayloadlessTyped(bad) {
 			bad = append([]byte{}, sh.docs[i][:len(sh.docs[i])/2]...) // known finding of C03 (event flood): plain truncation instead
 		}
+		if c.N(4) == 0 {
+			// the SAME refusals in several tasks at once (a fixed pool): whatever
+			// an error path keeps per process is hit by all of them
+			f, cd = model.JSON, common.JSON
+			bad = []byte([]string{`[1,123456789012345678901234567890]`, `{"a":-99999999999999999999}`, `[1e999]`, `["\ud800\u12"]`, `[1,]`, `{"a" 1}`, `[18446744073709551616]`}[c.N(7)])
+		}
 		entry := c.N(3)
 		reads := drawReads(c)
 		return &op{desc: OpDesc{Kind: "parse-hostile", Format: string(f), Doc: hex.EncodeToString(bad), Reads: reads, Variant: entry},
